@@ -11,6 +11,7 @@ import (
 	"github.com/MixinNetwork/mixin/common"
 	"github.com/MixinNetwork/mixin/crypto"
 	"github.com/MixinNetwork/mixin/kernel/internal/clock"
+	"github.com/dgraph-io/ristretto/v2"
 	"pgregory.net/rapid"
 	kit "verifkit"
 )
@@ -92,7 +93,7 @@ func vpC30Auth(call vpC30Call, msg []byte) (r vpC30Result) {
 }
 
 func TestVP_C30_authenticate(t *testing.T) {
-	c := kit.New(t, "C30", "rapid: signer key from 64 drawn seed bytes, random network and recipient ids, relayer flag byte in {0,1,2,255}, timeout in {10 (handshake), 5, 30, 600, 0 and -1 (freshness disabled by the caller)}, timestamp = now + {0, ±(timeout-2s), ±(timeout+2s), ±1 day, 0, 2^63, 2^64-1}; message from BuildAuthenticationMessage or from the harness assembler with one optional defect (wrong recipient, self, foreign signer, flag outside the signature, signature over another recipient, zero signature, wrong length); every accepted message is then mutated at each of the 137 bytes with 3 xor masks, truncated and extended; non-trivial = accepted message (with its full mutation sweep) or a single-defect twin; distinct by message bytes")
+	c := kit.New(t, "C30", "rapid: signer key from 64 drawn seed bytes, random network and recipient ids, relayer flag byte in {0,1,2,255}, timeout in {10 (handshake), 5, 30, 600, 0 and -1 (freshness disabled by the caller)}, timestamp = now + {0, ±(timeout-2s), ±(timeout+2s), ±1 day, 0, 2^63, 2^64-1}; message from BuildAuthenticationMessage or from the harness assembler with one optional defect (wrong recipient, self, foreign signer, flag outside the signature, signature over another recipient, zero signature, wrong length); the receiver is one node object with a real memory cache for the whole case; every accepted message is then mutated, on that same node (after its cache settled), at each of the 137 bytes with 3 xor masks, truncated and extended; non-trivial = accepted message (with its full mutation sweep) or a single-defect twin; distinct by message bytes")
 	c.Require("accepted", "accepted:built", "accepted:assembled", "reject:stale-past", "reject:stale-future", "reject:recipient", "reject:self", "reject:foreign-signer", "reject:flag-unsigned", "reject:length", "accepted:timeout-disabled-old", "mutant-rejected", "flag:relayer", "flag:plain")
 	c.Assume("the wall clock advances less than 2 s between the harness reading it and AuthenticateAs reading it; cases where more than 1 s elapsed across the call are discarded (class clock-moved)")
 	kit.SetChecks(kit.N(300, 20000))
@@ -106,7 +107,14 @@ func TestVP_C30_authenticate(t *testing.T) {
 		timeout := rapid.SampledFrom([]int64{10, 10, 10, 5, 30, 600, 0, -1}).Draw(t, "timeout")
 		selfId := vpC30PeerId(signer.PublicSpendKey, net)
 		sender := &Node{Signer: signer, isRelayer: flag == 1, networkId: net, IdForNetwork: selfId}
-		receiver := &Node{networkId: net, IdForNetwork: recipient}
+		// the receiver is a long-lived node with its memory cache, as in production:
+		// what it decided about one message must not colour the next one
+		rcache, cerr := ristretto.NewCache(&ristretto.Config[[]byte, any]{NumCounters: 1e4, MaxCost: 1 << 22, BufferItems: 64})
+		if cerr != nil {
+			t.Fatal(cerr)
+		}
+		defer rcache.Close()
+		receiver := &Node{networkId: net, IdForNetwork: recipient, cacheStore: rcache}
 
 		defect := rapid.SampledFrom([]string{"none", "none", "none", "built", "built", "recipient", "self", "foreign-signer", "flag-unsigned", "signed-other-recipient", "zero-signature", "length", "stale"}).Draw(t, "defect")
 		if defect == "built" && flag > 1 {
@@ -296,6 +304,7 @@ func TestVP_C30_authenticate(t *testing.T) {
 			classes = append(classes, "flag:plain")
 		}
 
+		rcache.Wait() // anything the node remembered about the accepted message is visible from here on
 		// the same message presented to another receiver
 		var other crypto.Hash
 		copy(other[:], rapid.SliceOfN(rapid.Byte(), 32, 32).Draw(t, "other_receiver"))
